@@ -169,7 +169,8 @@ class Ctx:
             for f in os.listdir(src):
                 if f.endswith(".tla") or f.endswith(".cfg"):
                     shutil.copy(os.path.join(src, f), os.path.join(wd, f))
-        jopts = ["-XX:+UseParallelGC", "-Xmx" + heap, "-Xss64m"]
+        # java.io.tmpdir inside the scratch dir: TLC leaves an (empty) tlc-<n> directory there on every run
+        jopts = ["-XX:+UseParallelGC", "-Xmx" + heap, "-Xss64m", "-Djava.io.tmpdir=" + wd]
         if dfs:
             jopts.append("-Dtlc2.tool.queue.IStateQueue=StateDeque")
         args = ["java"] + jopts + ["-cp", TLA_CP, "tlc2.TLC", "-metadir", os.path.join(wd, "meta"),
